@@ -1,3 +1,2 @@
 import PieModel.Props.C03
-open PieModel
-#print axioms C03_placeholder
+#print axioms PieModel.C03_placeholder
